@@ -341,6 +341,8 @@ def c09(F: Facts):
         else:
             pbus, pev, hi = r['by']
             ps = fin.get(pev)
+            if r.get('rep'):
+                continue  # a replica of the event being handled, forwarded by its handler: judged by the forwarding clause (C09.e) below
             if r.get('hre'):
                 # an existing object dispatched again from inside a handler: it is that handler's child (exactly once); it takes that
                 # handler's event as parent only if it had none
@@ -367,6 +369,14 @@ def c09(F: Facts):
             first = next((x['ev'] for x in F.tr if x['k'] == 'disp' and x['by'].__class__ is str and x.get('ok') and x['i'] < r['i']), None)
             if first is not None and fin.get(first) and s['parent'] != fin[first]['id'] and not (r['by'].__class__ is not str and s['parent'] is None):
                 v.append(('C09.d', f'explicit parent id of event {ev} (event {first}) was overwritten with {_who(F, s["parent"])}'))
+    # forwarding a replica (same event_id, other object) of the event being handled is still forwarding: neither own parent nor own child
+    for rt, ot in (F.out.get('replica_of') or {}).items():
+        so = fin.get(int(ot)) or fin.get(ot)
+        if so is None:
+            continue
+        for res in so['results']:
+            if int(rt) in res['kids']:
+                v.append(('C09.e', f'event {ot}: a replica of it (object tag {rt}, same event_id) forwarded by its handler {res["h"]} on {res["bus"]} is listed among its own children'))
     for tag, s in fin.items():
         if s['parent'] is not None and s['parent'] == s['id']:
             v.append(('C09.e', f'event {tag} is its own parent (path {s["path"]})'))
